@@ -149,6 +149,9 @@ func (t *Timer) Armed() bool {
 	return t.armed
 }
 
+// IsTicker reports whether the timer re-arms itself.
+func (t *Timer) IsTicker() bool { return t.ticker }
+
 // IsFunc reports whether this is an AfterFunc timer.
 func (t *Timer) IsFunc() bool { return t.fn != nil }
 
